@@ -1,44 +1,6 @@
+-- Root of the library. The property modules are built as explicit targets (`lake build
+-- OFCore.Props.Cxx …`, see MANIFEST.json setup_cmd): several of them define their own
+-- namespaces' vocabulary independently and are not meant to be imported together.
 import OFCore.Calendar
-import OFCore.Generated
 import OFCore.Period
 import OFCore.PeriodText
-import OFCore.PeriodSpec
-import OFCore.Lemmas.Calendar
-import OFCore.Lemmas.CalendarArith
-import OFCore.Lemmas.Period
-import OFCore.Props.C04
-import OFCore.Lemmas.Iso
-import OFCore.Lemmas.Text
-import OFCore.Lemmas.TextForms
-import OFCore.Lemmas.TextParse
-import OFCore.Lemmas.TextRound
-import OFCore.Props.C05
-import OFCore.EnumCodec
-import OFCore.Lemmas.EnumCodec
-import OFCore.Props.C15
-import OFCore.Param
-import OFCore.Lemmas.Param
-import OFCore.Props.C06
-import OFCore.AddDivide
-import OFCore.Lemmas.AddDivide
-import OFCore.Props.C03
-import OFCore.TaxScale
-import OFCore.Lemmas.TaxScale
-import OFCore.Props.C08
-import OFCore.Props.C09
-import OFCore.Group
-import OFCore.Lemmas.Group
-import OFCore.Props.C10
-import OFCore.SetInput
-import OFCore.Lemmas.SetInput
-import OFCore.Props.C16
-import OFCore.Engine
-import OFCore.RuleSys
-import OFCore.Lemmas.Engine
-import OFCore.Lemmas.EngineRanked
-import OFCore.Lemmas.EngineStore
-import OFCore.Props.C01
-import OFCore.Lemmas.EngineSys
-import OFCore.Props.C02
-import OFCore.Props.C18
-import OFCore.Props.C17
